@@ -99,7 +99,7 @@ pub fn outside_effects(w: &World, out: &ExecOut) -> MResult<Option<(String, Stri
     for (p, n) in &after { after_by_id.entry((n.dev, n.ino)).or_insert((p, n)); }
     for (p, n) in &w.before {
         let id = (n.dev, n.ino);
-        if out.ever_inside.contains(&id) { continue; }
+        if out.ever_inside.contains(&id) || out.exposed.contains(&id) { continue; }
         match after_by_id.get(&id) {
             None => return Ok(Some(("outside-removed".into(), format!("object {} (never inside the root) was removed", p)))),
             Some((_, m)) => {
@@ -438,6 +438,15 @@ pub fn items(prop: &str, tier: &str) -> Vec<Item> {
                     it.scen.name = format!("bound3:{}", it.scen.name);
                     v.push(it);
                 }
+            }
+            // a directory the operation works in is moved out of the root and an entry inside it replaced by a never-inside look-alike
+            // (two mutations, move/plant alphabet): single-step operations must stay clean; operations that walk DOWN from a
+            // directory they hold (remove_all, mkdir_all) follow the planted entry - a recorded limit of the guarantee (known finding)
+            for s in mutating_scenarios(false).into_iter().filter(|s| (th || s.backend == "E") && matches!(s.op.brief().as_str(), x if x.contains("remove_all(\"a\")") || x.contains("mkdir_all(\"a/b/x/y/z\")") || x.contains("create(\"a/b/new\")") || x.contains("rename(") || x.contains("remove_file(") || x.contains("create_file("))) {
+                let mut it = item(s, Plan::Attack { bound: 2, full: false }, if th { 60_000 } else { 4_000 });
+                it.scen.name = format!("moved+planted:{}", it.scen.name);
+                it.root_move = true;
+                v.push(it);
             }
             bundle("sweep-rust", sweep_scenarios(th, false), 40, true, 0, &mut v);
             // the caller worked on another root with the same descriptor number and the same paths just before
@@ -1046,8 +1055,12 @@ fn judge(prop: &str, it: &Item, scen: &Scenario, w: &World, eo: &ExecOut, counts
             let srcs: Vec<(u64, u64)> = ["/src/secret-src", "/src/srcdir", "/src/srcdir/status"].iter().filter_map(|p| lstat(&out(p)).map(|s| (s.dev, s.ino))).collect();
             if let Some(fd) = &o.fd { if srcs.contains(&(fd.dev, fd.ino)) { v.push(("returned-overmount-source".into(), format!("returned the over-mounted object ({:?}) instead of failing or returning the procfs entry", fd.procpath))); } }
         }
-        if let Some(x) = containment_monitor(w, eo, prop != "C02") { v.push(x); }
-        if prop != "C02" { if let Some(x) = outside_effects(w, eo)? { v.push(x); } }
+        // violations that need a planted entry get keys of their own (operation, "after-plant"), so that the recorded limit of
+        // remove_all / mkdir_all hides nothing else
+        let planted = eo.applied.iter().any(|(_, m)| m.starts_with("plant("));
+        let pk = |k: String| if planted { format!("{}:{}:after-plant", k, scen.op.name) } else { k };
+        if let Some((k, d)) = containment_monitor(w, eo, prop != "C02") { v.push((pk(k), d)); }
+        if prop != "C02" { if let Some((k, d)) = outside_effects(w, eo)? { v.push((pk(k), d)); } }
         // kernel backend: races inside one openat2 call cannot be enumerated at syscall granularity; the containment argument
         // there is the kernel's, and it only applies if every delegated walk is scoped (RESOLVE_IN_ROOT|RESOLVE_NO_MAGICLINKS)
         if matches!(prop, "C02" | "C03") {
@@ -1101,6 +1114,9 @@ pub fn run_item(prop: &str, tier: &str, idx: usize, only: Option<&Value>) -> MRe
             Plan::Attack { .. } if it.root_move => Mode::Attack(mutations_for(&scen.path, false).into_iter().filter(|m| m.name.starts_with("move(") || m.name.starts_with("plant(")).collect()),
             Plan::Attack { full, bound } => {
                 let mut m = mutations_for(&scen.path, *full);
+                // planting inside a moved-out directory: everywhere for lookups (C02 and the checks that ride on lookups); for
+                // mutating operations only in the dedicated moved+planted items (C03 keeps its alphabet otherwise)
+                if prop != "C02" && !matches!(scen.op.name.as_str(), "resolve" | "resolve_nofollow" | "open_subpath" | "readlink") { m.retain(|x| !x.name.starts_with("plant(")); }
                 // bound >= 3: the directory-swapping core only (one walked directory exchanged for an escaping link / an outside
                 // directory, moved out, moved back) - the moves every published attack on userspace resolvers is built from
                 if *bound >= 3 { m.retain(|x| (x.name.contains("root/a/b,") || x.name.contains("(root/a/b->") || x.name.contains("->root/a/b)")) && !x.name.contains("evil-dir")); }
